@@ -64,3 +64,20 @@ package htmldoc
 //@   property C19
 //@   flags frameonly, noalias
 //@   fresh listItems
+
+// ---- C19: scripts, styles and other non-content elements contribute no text, wherever the walk starts ----
+//@ func shouldSkipElement results (r)
+//@   property C19
+//@   flags pure
+//@   ensures scripts_and_styles: (tagName == "script" || tagName == "style" || tagName == "noscript" || tagName == "template") ==> r
+
+//@ func getTextContentRecursive
+//@   property C19
+//@   flags nosafety
+//@   requires !isnil(n) && !isnil(result)
+//@   ensures skipped_element_contributes_nothing: n.Type == html.ElementNode && shouldSkipElement(n.Data) ==> sameseq(result.String(), old(result.String()))
+//@   ensures text_is_only_appended: len(result.String()) >= len(old(result.String())) && sameseq(result.String()[0:len(old(result.String()))], old(result.String()))
+//@   ensures leaf_text_node_verbatim: n.Type == html.TextNode && isnil(n.FirstChild) ==> sameseq(result.String(), old(result.String()) + n.Data)
+//@   loop 0:
+//@     invariant !isnil(result)
+//@     invariant len(result.String()) >= len(old(result.String())) && sameseq(result.String()[0:len(old(result.String()))], old(result.String()))
